@@ -211,8 +211,9 @@ def _api_case(R, n, symm, cells, tag, only, join=False, reduced=False):
     p3 = None
     try:
         build.create(p1, bins, pix, symm)
-        # /a/b carries a second value column (score = 40 - 3 * count: values of both signs) that field= selects
-        build.create(p2 + "::/a/b", bins, {k: {"count": v, "score": 40 - 3 * v} for k, v in pix.items()}, symm, cols=("count", "score"))
+        # /a/b carries a second value column (40 - 3 * count: values of both signs) that field= selects; it is called 'alt' so that its
+        # name sorts BEFORE bin1_id / bin2_id (HDF5 lists group members alphabetically; 'count' sorts after them)
+        build.create(p2 + "::/a/b", bins, {k: {"count": v, "alt": 40 - 3 * v} for k, v in pix.items()}, symm, cols=("count", "alt"))
         MS = build.dense(n, {k: 40 - 3 * v for k, v in pix.items()}, symm)
         # two weight columns on /a/b: 'weight' (multiplicative) and 'KR' (divisive by default), pairwise distinct values, one masked bin
         wv = np.array([0.5 + 0.25 * q for q in range(n)])
@@ -253,9 +254,9 @@ def _api_case(R, n, symm, cells, tag, only, join=False, reduced=False):
                 if out == "sparse":
                     return clr.matrix(balance=False, sparse=True, chunksize=cs)
                 if out == "dense:score":
-                    return clr.matrix(field="score", balance=False, chunksize=cs)
+                    return clr.matrix(field="alt", balance=False, chunksize=cs)
                 if out == "sparse:score":
-                    return clr.matrix(field="score", balance=False, sparse=True, chunksize=cs)
+                    return clr.matrix(field="alt", balance=False, sparse=True, chunksize=cs)
                 if out == "dense:weight":
                     return clr.matrix(balance=True, chunksize=cs)
                 if out == "sparse:KR":
